@@ -186,14 +186,14 @@ def accept_traces(items, name="sys", timeout=900, shard=12):
         if len(vals) != 1:
             raise core.BuildError("unexpected coqc output for traces", o[-2000:])
         # each verdict prints as (option N, list bool, bool)
-        for m in re.finditer(r"\((None|Some (\d+))\s*,\s*\[([^\]]*)\]\s*,\s*(true|false)\s*,\s*(None|Some (\d+))\)", vals[0]):
+        for m in re.finditer(r"\((None|Some (\d+))\s*,\s*\[([^\]]*)\]\s*,\s*(true|false)\s*,\s*(None|Some (\d+))\s*,\s*(true|false)\)", vals[0]):
             rej = None if m.group(1) == "None" else int(m.group(2))
             mons = [x.strip() == "true" for x in m.group(3).split(";") if x.strip()]
-            res.append((rej, mons, (m.group(4) == "true", None if m.group(5) == "None" else int(m.group(6)))))
+            res.append((rej, mons, (m.group(4) == "true", None if m.group(5) == "None" else int(m.group(6)), m.group(7) == "true")))
     assert len(res) == len(encs), (len(res), len(encs))
     out = []
-    for (rej, mons, (ff, ffi)), (scn, evs, src) in zip(res, encs):
-        out.append({"accepted": rej is None, "fault_free": ff, "first_fault": (evs[ffi] if ffi is not None and ffi < len(evs) else None),
+    for (rej, mons, (ff, ffi, static_ok)), (scn, evs, src) in zip(res, encs):
+        out.append({"accepted": rej is None, "fault_free": ff, "static_hypotheses": static_ok, "first_fault": (evs[ffi] if ffi is not None and ffi < len(evs) else None),
                     "first_fault_index": (src[ffi] if ffi is not None and ffi < len(src) else None), "reject_event": rej, "reject_index": (src[rej] if rej is not None and rej < len(src) else None),
                     "reject_term": (evs[rej] if rej is not None and rej < len(evs) else None),
                     "monitors": dict(zip(MONITOR_NAMES, mons)), "n_events": len(evs)})
